@@ -36,7 +36,7 @@ Definition msgp_full_statement : Prop :=
 
 Lemma msgp_full_if_no_lossy : msgp_lossy = [] -> msgp_full_statement.
 Proof.
-  intros E name t Hin v rest Hv. eapply msgp_schema_dec_enc; eauto. rewrite E. intros [].
+  intros E name t Hin v rest Hv. apply (msgp_schema_dec_enc name t Hin); [|exact Hv]. rewrite E. intros [].
 Qed.
 
 (* a schema that drops what it decodes refutes it, as soon as it has a non-zero value *)
